@@ -400,10 +400,10 @@ func (e *Engine) indexAddr(st *State, fr *Frame, x *ssa.IndexAddr) Value {
 func (e *Engine) regionOfNoted(st *State, key string, obj *smt.Term) *smt.Term {
 	r := e.regionOf(key, obj)
 	c := e.C
-	if !st.Known[r] {
-		st.Known[r] = true
+	if !st.Marked[r] {
+		st.Marked[r] = true
 		st.Assume(c.Eq(c.App("region_inv$"+key, smt.BV64, r), obj))
-		st.Assume(c.Eq(c.App("region_kind", smt.BV64, r), c.Var("regionkind$"+key, smt.BV64)))
+		st.Assume(c.Eq(c.App("region_kind", smt.BV64, r), e.kindConst("regionkind$"+key)))
 		st.Assume(c.Not(c.Eq(r, e.i64(0))))
 		st.Assume(c.Select(e.allocMap(st), r))
 		g := c.App("region_ghost", smt.Bool, r)
